@@ -297,7 +297,12 @@ def observe_fit(idnt, kwargs, label="", post=None, fault=False):
                     fuzzy = near_sample(lo) or near_sample(hi)
         else:
             last = (i == len(passes) - 1)
-            if last and success and "optimal_fit_delta" in fp:
+            if last and success and "optimal_fit_delta" in fp and \
+                    expected_idx(float(fp["optimal_fit_delta"]), upper,
+                                 False) == idx:
+                # (an implementation that remembers the result of a scan
+                # pass with the same points needs no final run: then the
+                # last run is a scan pass like the others)
                 kind = "final"
                 lo, hi, zero = float(fp["optimal_fit_delta"]), upper, False
             else:
@@ -357,6 +362,12 @@ def observe_fit(idnt, kwargs, label="", post=None, fault=False):
             out["stored_cp_exp"] = 98
     except (KeyError, TypeError, ZeroDivisionError):
         out["stored_cp_exp"] = 99
+    # what the reported range has to be with the plateau search
+    out["fin_lo"], out["fin_hi"] = 0, 0
+    if mode == "edelta" and "optimal_fit_delta" in fp:
+        dopt_ = float(fp["optimal_fit_delta"])
+        out["fin_lo"] = rank_of(table, min(dopt_, upper))
+        out["fin_hi"] = rank_of(table, max(dopt_, upper))
     # final mask as reported
     fr = np.asarray(idnt["fit range"]).astype(bool) \
         if "fit range" in idnt else np.zeros(len(x), bool)
@@ -479,7 +490,7 @@ def slim_for_tlc(r):
             "req_zero", "passes", "success", "success_flag_present",
             "k_not_one",
             "stored_cp_exp", "final_mask", "stale_keys", "xminmax_ok",
-            "rescan_ok",
+            "rescan_ok", "fin_lo", "fin_hi",
             "scan", "rel"]
     r2 = {k: r[k] for k in keep}
     r2["passes"] = [{k: v for k, v in p.items() if k != "npts"}
